@@ -50,6 +50,8 @@ type Op struct {
 	Outcome string  `json:"outcome,omitempty"`
 	Which   string  `json:"which,omitempty"`
 	B       string  `json:"b,omitempty"`
+	PB      string  `json:"pb,omitempty"`
+	Form    string  `json:"form,omitempty"`
 }
 
 type Schedule struct {
@@ -77,7 +79,17 @@ type row struct {
 	St   string   `json:"st"`
 	PL   PL       `json:"pl"`
 	H    []HV     `json:"h"`
+	T    []HV     `json:"t"` // trace map
 	Leak []string `json:"leak"`
+}
+
+// sibling is an item of the harness that travels in the same publish request as the message.
+type sibling struct {
+	ID      string
+	Route   string
+	Payload []byte
+	Headers map[string]string
+	Trace   map[string]string
 }
 
 type journey struct {
@@ -106,6 +118,9 @@ type journey struct {
 	leaseID string
 	msgID   string
 	ncomp   int
+	recvAt  time.Time         // received_at of the message (filter operations select it by "before")
+	mtrace  map[string]string // trace map given with a published message
+	sibs    []sibling
 }
 
 var reSafe = regexp.MustCompile(`[^A-Za-z0-9]+`)
@@ -135,6 +150,10 @@ func (r *Runner) Run(s Schedule) error {
 			j.emit("Expire", nil, map[string]any{"ok": true})
 		case "Requeue":
 			err = j.requeue(op)
+		case "Cancel", "Resume", "RequeueMsg":
+			err = j.operator(op)
+		case "Extend":
+			err = j.extend(op)
 		case "Push":
 			err = j.push(op.Outcome, "push", op.B)
 		case "Restart":
@@ -180,7 +199,7 @@ func (j *journey) start(name string) error {
 		j.sent["clen"] = strconv.Itoa(len(j.payload))
 	}
 	received := func(s string) string {
-		if in.Via == "wire" {
+		if in.Via == "wire" || in.Via == "chunked" {
 			return TrimOWS(s)
 		}
 		return s
@@ -258,6 +277,28 @@ func (j *journey) start(name string) error {
 	if err := j.boot(); err != nil {
 		return err
 	}
+	// publish: trace map of the message (seeded choice) and the siblings of the request shape
+	if in.Src == "publish" {
+		if pick(j.r.Seed, j.jid, "mtrace", 2) == 0 {
+			j.mtrace = map[string]string{"trace_id": "m-" + j.jid, "origin": "fid m,1"}
+		}
+		with := sibling{ID: "sib_" + j.jid + "_with", Route: "/aux", Payload: []byte("sibling+\x00\xfe with headers " + j.jid),
+			Headers: map[string]string{"X-Sib": "sibling one, with", "Content-Type": "text/x-sibling"},
+			Trace:   map[string]string{"trace_id": "sib-with", "sib": "1"}}
+		bare := sibling{ID: "sib_" + j.jid + "_bare", Route: "/aux", Payload: []byte("sibling- bare\xff " + j.jid)}
+		switch in.PB {
+		case "after":
+			j.sibs = []sibling{with}
+		case "before":
+			j.sibs = []sibling{bare}
+		case "middle":
+			j.sibs = []sibling{with, bare}
+		}
+	}
+	sibExp := []map[string]any{}
+	for _, sb := range j.sibs {
+		sibExp = append(sibExp, map[string]any{"id": sb.ID, "pl": Digest(sb.Payload, sb.Payload), "h": HeaderList(sb.Headers), "t": HeaderList(sb.Trace)})
+	}
 	copyNames := []string{"uid", "org"}
 	if !in.Fwd {
 		copyNames = []string{}
@@ -268,7 +309,7 @@ func (j *journey) start(name string) error {
 	}
 	ev := map[string]any{
 		"c": map[string]any{"src": in.Src, "pc": in.PC, "hc": in.HC, "be": in.Be, "mode": in.Mode, "via": in.Via,
-			"lim": in.Lim, "fwd": in.Fwd, "maxBody": j.maxBody, "maxHdr": j.maxHdr},
+			"lim": in.Lim, "fwd": in.Fwd, "pb": in.PB, "maxBody": j.maxBody, "maxHdr": j.maxHdr},
 		"pl":    Digest(j.payload, j.payload),
 		"recv":  j.recv,
 		"auth":  auth,
@@ -276,6 +317,8 @@ func (j *journey) start(name string) error {
 		"names": j.names,
 		"vals":  j.vals,
 		"name":  name,
+		"mt":    HeaderList(j.mtrace),
+		"sibs":  sibExp,
 	}
 	j.emitRaw("Start", ev)
 	return nil
@@ -371,46 +414,59 @@ func (j *journey) cleanup() {
 
 // ---------------------------------------------------------------- events
 
-func (j *journey) dump() (rows []row, other int, err error) {
+func (j *journey) dump() (rows []row, sibs []row, other int, err error) {
 	var raw []queue.VerifRow
 	switch {
 	case j.sql != nil:
 		raw, err = j.sql.VerifDump()
 		if err != nil {
-			return nil, 0, err
+			return nil, nil, 0, err
 		}
 	case j.mem != nil:
 		raw = j.mem.VerifDump()
 	}
-	rows = []row{}
+	rows, sibs = []row{}, []row{}
 	for _, vr := range raw {
 		e := vr.Env
-		if e.Route != "/in" {
-			other++
-			continue
-		}
 		if strings.HasPrefix(e.ID, compPrefix) {
 			continue
 		}
 		h := HeaderList(e.Headers)
+		if strings.HasPrefix(e.ID, "sib_") {
+			var want []byte
+			for _, sb := range j.sibs {
+				if sb.ID == e.ID {
+					want = sb.Payload
+				}
+			}
+			sibs = append(sibs, row{ID: e.ID, St: string(e.State), PL: Digest(e.Payload, want), H: h, T: HeaderList(e.Trace), Leak: []string{}})
+			continue
+		}
+		if e.Route != "/in" {
+			other++
+			continue
+		}
 		texts := append(headerTexts(h), e.ID, e.Target, e.DeadReason, string(e.Payload))
 		for k, v := range e.Trace {
 			texts = append(texts, k, v)
 		}
-		rows = append(rows, row{ID: e.ID, St: string(e.State), PL: Digest(e.Payload, j.payload), H: h, Leak: Leaks(j.secrets, texts...)})
+		rows = append(rows, row{ID: e.ID, St: string(e.State), PL: Digest(e.Payload, j.payload), H: h, T: HeaderList(e.Trace),
+			Leak: Leaks(j.secrets, texts...)})
+		j.recvAt = e.ReceivedAt
 	}
-	return rows, other, nil
+	return rows, sibs, other, nil
 }
 
 func (j *journey) emitRaw(ev string, fields map[string]any) {
-	rows, other, err := j.dump()
+	rows, sibs, other, err := j.dump()
 	if err != nil {
 		fields["dumperr"] = err.Error()
-		rows = []row{}
+		rows, sibs = []row{}, []row{}
 	}
 	fields["tr"] = j.jid
 	fields["ev"] = ev
 	fields["dump"] = rows
+	fields["sibs"] = sibs
 	fields["other"] = other
 	b, err := json.Marshal(fields)
 	if err != nil {
@@ -466,9 +522,22 @@ func (j *journey) submit() error {
 		rec := httptest.NewRecorder()
 		j.inst.Handlers["ingress"].ServeHTTP(rec, req)
 		status = rec.Code
-	case "wire":
+	case "stream":
+		// a body of unknown length, as a handler sees a chunked or HTTP/2 upload: no Content-Length at all
+		req := httptest.NewRequest(http.MethodPost, "http://fid.test/in", struct{ io.Reader }{bytes.NewReader(j.payload)})
+		req.ContentLength = -1
+		req.TransferEncoding = []string{"chunked"}
+		req.Header = http.Header{}
+		for _, f := range in.Recv {
+			k := CanonName(SentName(f.N, f.C))
+			req.Header[k] = append(req.Header[k], j.sentValue(f))
+		}
+		rec := httptest.NewRecorder()
+		j.inst.Handlers["ingress"].ServeHTTP(rec, req)
+		status = rec.Code
+	case "wire", "chunked":
 		var err error
-		status, err = j.submitWire()
+		status, err = j.submitWire(in.Via == "chunked")
 		if err != nil {
 			errText = err.Error()
 		}
@@ -484,7 +553,29 @@ func (j *journey) submit() error {
 			}
 			item["headers"] = h
 		}
-		body, _ := json.Marshal(map[string]any{"items": []any{item}})
+		if j.mtrace != nil {
+			item["trace"] = j.mtrace
+		}
+		sibItem := func(sb sibling) map[string]any {
+			it := map[string]any{"id": sb.ID, "route": sb.Route, "payload_b64": base64.StdEncoding.EncodeToString(sb.Payload)}
+			if sb.Headers != nil {
+				it["headers"] = sb.Headers
+			}
+			if sb.Trace != nil {
+				it["trace"] = sb.Trace
+			}
+			return it
+		}
+		items := []any{item}
+		switch in.PB {
+		case "after":
+			items = []any{sibItem(j.sibs[0]), item}
+		case "before":
+			items = []any{item, sibItem(j.sibs[0])}
+		case "middle":
+			items = []any{sibItem(j.sibs[0]), item, sibItem(j.sibs[1])}
+		}
+		body, _ := json.Marshal(map[string]any{"items": items})
 		req := httptest.NewRequest(http.MethodPost, "http://admin.test/messages/publish", bytes.NewReader(body))
 		req.Header.Set("Content-Type", "application/json")
 		req.Header.Set("X-Hookaido-Audit-Reason", "fidelity check")
@@ -509,7 +600,7 @@ func (j *journey) submit() error {
 
 // submitWire writes the request byte by byte on a real connection to the
 // production ingress listener: header names in the casing of the model.
-func (j *journey) submitWire() (int, error) {
+func (j *journey) submitWire(chunked bool) (int, error) {
 	addr := j.inst.Addrs["ingress"]
 	conn, err := net.DialTimeout("tcp", addr, 5*time.Second)
 	if err != nil {
@@ -518,18 +609,40 @@ func (j *journey) submitWire() (int, error) {
 	defer conn.Close()
 	_ = conn.SetDeadline(time.Now().Add(60 * time.Second))
 	var hb bytes.Buffer
-	fmt.Fprintf(&hb, "POST /in HTTP/1.1\r\nHost: fid.test\r\nContent-Length: %d\r\n", len(j.payload))
+	if chunked {
+		hb.WriteString("POST /in HTTP/1.1\r\nHost: fid.test\r\nTransfer-Encoding: chunked\r\n")
+	} else {
+		fmt.Fprintf(&hb, "POST /in HTTP/1.1\r\nHost: fid.test\r\nContent-Length: %d\r\n", len(j.payload))
+	}
 	for _, f := range j.in.Recv {
 		fmt.Fprintf(&hb, "%s: %s\r\n", SentName(f.N, f.C), j.sentValue(f))
 	}
 	hb.WriteString("\r\n")
+	body := j.payload
+	if chunked {
+		// no declared length: chunks of uneven sizes, then the last-chunk
+		var cb bytes.Buffer
+		sizes := []int{1, 7, 1024, 3, 64 << 10}
+		for i, k := 0, 0; i < len(body); k++ {
+			n := sizes[k%len(sizes)]
+			if n > len(body)-i {
+				n = len(body) - i
+			}
+			fmt.Fprintf(&cb, "%x\r\n", n)
+			cb.Write(body[i : i+n])
+			cb.WriteString("\r\n")
+			i += n
+		}
+		cb.WriteString("0\r\n\r\n")
+		body = cb.Bytes()
+	}
 	done := make(chan struct{})
 	go func() {
 		defer close(done)
 		if _, err := conn.Write(hb.Bytes()); err != nil {
 			return
 		}
-		_, _ = conn.Write(j.payload)
+		_, _ = conn.Write(body)
 	}()
 	resp, err := http.ReadResponse(bufio.NewReader(conn), nil)
 	if err != nil {
@@ -798,17 +911,22 @@ func (j *journey) deq(op Op) error {
 func (j *journey) leaseOp(op Op) error {
 	ok := false
 	detail := ""
+	batch := op.Form == "batch"
 	switch op.Ch {
 	case "http":
 		var code int
 		var body []byte
+		idField := fmt.Sprintf(`"lease_id":%q`, j.leaseID)
+		if batch {
+			idField = fmt.Sprintf(`"lease_ids":[%q]`, j.leaseID)
+		}
 		switch op.Kind {
 		case "ack":
-			code, body = j.pullHTTP("ack", fmt.Sprintf(`{"lease_id":%q}`, j.leaseID))
+			code, body = j.pullHTTP("ack", "{"+idField+"}")
 		case "nack":
-			code, body = j.pullHTTP("nack", fmt.Sprintf(`{"lease_id":%q,"delay":"0s"}`, j.leaseID))
+			code, body = j.pullHTTP("nack", "{"+idField+`,"delay":"0s"}`)
 		case "dead":
-			code, body = j.pullHTTP("nack", fmt.Sprintf(`{"lease_id":%q,"dead":true,"reason":"fidelity"}`, j.leaseID))
+			code, body = j.pullHTTP("nack", "{"+idField+`,"dead":true,"reason":"fidelity"}`)
 		}
 		ok = code == 204 || code == 200
 		if !ok {
@@ -820,14 +938,59 @@ func (j *journey) leaseOp(op Op) error {
 			return err
 		}
 		ctx, cancel := grpcCtx()
+		single, many := j.leaseID, []string(nil)
+		if batch {
+			single, many = "", []string{j.leaseID}
+		}
+		conflicts := 0
 		switch op.Kind {
 		case "ack":
-			_, err = cl.Ack(ctx, &workerapipb.AckRequest{Endpoint: "/pull/in", LeaseId: j.leaseID})
+			var r *workerapipb.AckResponse
+			r, err = cl.Ack(ctx, &workerapipb.AckRequest{Endpoint: "/pull/in", LeaseId: single, LeaseIds: many})
+			conflicts = len(r.GetConflicts())
 		case "nack":
-			_, err = cl.Nack(ctx, &workerapipb.NackRequest{Endpoint: "/pull/in", LeaseId: j.leaseID, Delay: durationpb.New(0)})
+			var r *workerapipb.NackResponse
+			r, err = cl.Nack(ctx, &workerapipb.NackRequest{Endpoint: "/pull/in", LeaseId: single, LeaseIds: many, Delay: durationpb.New(0)})
+			conflicts = len(r.GetConflicts())
 		case "dead":
-			_, err = cl.Nack(ctx, &workerapipb.NackRequest{Endpoint: "/pull/in", LeaseId: j.leaseID, Dead: true, Reason: "fidelity"})
+			var r *workerapipb.NackResponse
+			r, err = cl.Nack(ctx, &workerapipb.NackRequest{Endpoint: "/pull/in", LeaseId: single, LeaseIds: many, Dead: true, Reason: "fidelity"})
+			conflicts = len(r.GetConflicts())
 		}
+		cancel()
+		ok = err == nil && conflicts == 0
+		if err != nil {
+			detail = err.Error()
+		} else if conflicts > 0 {
+			detail = "lease conflict"
+		}
+	default:
+		return fmt.Errorf("unknown lease channel %q", op.Ch)
+	}
+	if len(detail) > 200 {
+		detail = detail[:200]
+	}
+	j.emit("LeaseOp", map[string]any{"kind": op.Kind, "ch": op.Ch, "form": op.Form}, map[string]any{"ok": ok, "detail": detail})
+	return nil
+}
+
+func (j *journey) extend(op Op) error {
+	ok := false
+	detail := ""
+	switch op.Ch {
+	case "http":
+		code, body := j.pullHTTP("extend", fmt.Sprintf(`{"lease_id":%q,"extend_by":"45s"}`, j.leaseID))
+		ok = code == 204 || code == 200
+		if !ok {
+			detail = fmt.Sprintf("status %d %s", code, strings.TrimSpace(string(body)))
+		}
+	case "grpc":
+		cl, err := j.grpcClient()
+		if err != nil {
+			return err
+		}
+		ctx, cancel := grpcCtx()
+		_, err = cl.Extend(ctx, &workerapipb.ExtendRequest{Endpoint: "/pull/in", LeaseId: j.leaseID, ExtendBy: durationpb.New(45 * time.Second)})
 		cancel()
 		ok = err == nil
 		if err != nil {
@@ -839,7 +1002,7 @@ func (j *journey) leaseOp(op Op) error {
 	if len(detail) > 200 {
 		detail = detail[:200]
 	}
-	j.emit("LeaseOp", map[string]any{"kind": op.Kind, "ch": op.Ch}, map[string]any{"ok": ok, "detail": detail})
+	j.emit("Extend", map[string]any{"ch": op.Ch}, map[string]any{"ok": ok, "detail": detail})
 	return nil
 }
 
@@ -879,6 +1042,51 @@ func (j *journey) requeue(op Op) error {
 	if j.in.Mode == "push" {
 		return j.push(op.Outcome, "requeue", op.B)
 	}
+	return nil
+}
+
+// operator: cancel / resume / requeue through the Admin API, by id or by filter.  The filter names the route, the
+// current state of the message and "before" = its received_at + 1ns, so the harness' own companions (published
+// later) never match.
+func (j *journey) operator(op Op) error {
+	verb := map[string]string{"Cancel": "cancel", "Resume": "resume", "RequeueMsg": "requeue"}[op.Op]
+	rows, _, _, err := j.dump()
+	if err != nil {
+		return err
+	}
+	state := ""
+	if len(rows) > 0 {
+		state = rows[0].St
+	}
+	var code int
+	var body []byte
+	if op.Form == "filter" {
+		req := map[string]any{"route": "/in", "limit": 10, "before": j.recvAt.Add(time.Nanosecond).UTC().Format(time.RFC3339Nano)}
+		if state != "" {
+			req["state"] = state
+		}
+		b, _ := json.Marshal(req)
+		code, body = j.admin(http.MethodPost, "/messages/"+verb+"_by_filter", string(b))
+	} else {
+		code, body = j.admin(http.MethodPost, "/messages/"+verb, fmt.Sprintf(`{"ids":[%q]}`, j.msgID))
+	}
+	var out map[string]any
+	_ = json.Unmarshal(body, &out)
+	n := 0
+	for _, k := range []string{"canceled", "resumed", "requeued"} {
+		if v, ok := out[k].(float64); ok {
+			n = int(v)
+		}
+	}
+	detail := ""
+	if code != 200 {
+		n = 0
+		detail = strings.TrimSpace(string(body))
+		if len(detail) > 200 {
+			detail = detail[:200]
+		}
+	}
+	j.emit(op.Op, map[string]any{"form": op.Form, "from": state}, map[string]any{"n": n, "status": code, "detail": detail})
 	return nil
 }
 
@@ -986,7 +1194,7 @@ func (j *journey) push(outcome, after, b string) error {
 		// wait until the dispatcher has applied the lease action
 		deadline := time.Now().Add(5 * time.Second)
 		for {
-			rows, _, err := j.dump()
+			rows, _, _, err := j.dump()
 			if err != nil {
 				return err
 			}
@@ -1140,6 +1348,7 @@ func (j *journey) scan() error {
 	fields["tr"] = j.jid
 	fields["ev"] = "Scan"
 	fields["dump"] = []row{}
+	fields["sibs"] = []row{}
 	fields["other"] = 0
 	b, _ := json.Marshal(fields)
 	j.r.Out.Write(ASCIIJSON(b))
